@@ -2,11 +2,11 @@ package main
 
 import (
 	"fmt"
-	"os"
 	"go/constant"
 	"go/token"
 	"go/types"
 	"math"
+	"os"
 	"strings"
 
 	"golang.org/x/tools/go/ssa"
@@ -45,10 +45,11 @@ type cfunc struct {
 }
 
 type frame struct {
-	cf     *cfunc
-	regs   []Value
-	defers []func()
-	visits []int32
+	cf      *cfunc
+	regs    []Value
+	defers  []func()
+	visits  []int32
+	symLoop map[int]int // per loop-header block: iterations decided on a symbolic condition (verifLoopCut)
 }
 
 type compiler struct {
@@ -352,6 +353,15 @@ func (e *Exec) run(fr *frame, blk *cblock, prev *cblock) Value {
 				}
 			}
 			e.curSite = blk.psite
+			if e.cutBound > 0 && !c.IsConst() && strings.HasSuffix(blk.b.Comment, ".loop") {
+				if fr.symLoop == nil {
+					fr.symLoop = map[int]int{}
+				}
+				fr.symLoop[idx]++
+				if fr.symLoop[idx] > e.cutBound {
+					panic(pathEnd{"CUT loop with input-dependent trip count longer than the stated bound"})
+				}
+			}
 			if e.branch(c) {
 				prev, blk = blk, blk.succ[0]
 			} else {
@@ -990,6 +1000,14 @@ func (e *Exec) makeSlice(el types.Type, n, cp *Term, st string) Value {
 	e.curSite = st
 	lim := e.allocLimitElems()
 	e.obligation(Cmp(OpULe, n, BV(64, uint64(lim))), "runtime", "makeslice: len out of range or allocation beyond bound", st)
+	if e.cutBound > 0 && !e.subst(n).IsConst() && e.concrete == nil {
+		// verifLoopCut: per-entry data for more than the stated number of entries is outside the claim
+		// (the allocation bound above has been discharged for all sizes first)
+		if e.pos >= len(e.trace) {
+			e.Cuts++
+		}
+		e.assume(Cmp(OpULe, n, BV(64, uint64(e.cutBound))), "size cut")
+	}
 	ln := int(e.concretize(n))
 	c := ln
 	cp = e.subst(cp)
